@@ -318,6 +318,9 @@ func (s *Server) serveOne(ctx context.Context, r io.Reader, w io.Writer, shmConn
 			}
 			s.logIPCWriteErr("error-response", req.Method,
 				writeErrorResponse(w, errSchema, pverr, s.serverID, req.RequestID, s.debugErrors))
+			// The refusal is sent before dispatch: a stream-method client may
+			// already have written its input stream behind the request.
+			s.drainStreamInput(r, req.Method)
 			return nil
 		}
 	}
